@@ -123,7 +123,37 @@ def concretes(g, t):
     return res
 
 
-def gen_model(r, g, maxobjs, start=0, extern=()):
+def fill_refs(r, g, objs, visible):
+    """Give the reference attributes of `objs` targets (by name) among the `visible` objects."""
+    for o in objs:
+        for a in g["rules"][o["rule"]]["attrs"]:
+            if a["kind"] not in ("ref", "refs"):
+                continue
+            cs = [c for c in concretes(g, a["type"]) if c not in PRIMS]
+            cands = [x["name"] for x in visible if x["rule"] in cs]
+            if not cands:
+                continue
+            if a["kind"] == "ref":
+                if r.chance(0.7):
+                    o["attrs"][a["name"]] = {"ref": r.choice(cands)}
+            else:
+                n = r.weighted([(0, 2), (1, 3), (2, 3), (3, 1)])
+                o["attrs"][a["name"]] = {"refs": [r.choice(cands) for _ in range(n)]}
+
+
+# import graphs of the multi-model cases: edges (importer, imported) over models 0..k-1, 0 = main
+SHAPES = {
+    "pair": (2, [(0, 1)]),
+    "chain": (3, [(0, 1), (1, 2)]),
+    "star": (3, [(0, 1), (0, 2)]),
+    "diamond": (4, [(0, 1), (0, 2), (1, 3), (2, 3)]),
+    "cycle2": (2, [(0, 1), (1, 0)]),
+    "cycle3": (3, [(0, 1), (1, 2), (2, 0)]),
+    "chain+back": (3, [(0, 1), (1, 2), (2, 1)]),
+}
+
+
+def gen_model(r, g, maxobjs, start=0, extern=(), fill=True):
     """Containment tree with unique names, then references by name (also to `extern` objects)."""
     cnt = [start]
     maxobjs += start
@@ -178,21 +208,8 @@ def gen_model(r, g, maxobjs, start=0, extern=()):
         return obj(c, depth)
 
     root = obj("C0", 0)
-    # references
-    for o in objs:
-        for a in g["rules"][o["rule"]]["attrs"]:
-            if a["kind"] not in ("ref", "refs"):
-                continue
-            cs = [c for c in concretes(g, a["type"]) if c not in PRIMS]
-            cands = [x["name"] for x in list(objs) + list(extern) if x["rule"] in cs]
-            if not cands:
-                continue
-            if a["kind"] == "ref":
-                if r.chance(0.7):
-                    o["attrs"][a["name"]] = {"ref": r.choice(cands)}
-            else:
-                n = r.weighted([(0, 2), (1, 3), (2, 3), (3, 1)])
-                o["attrs"][a["name"]] = {"refs": [r.choice(cands) for _ in range(n)]}
+    if fill:
+        fill_refs(r, g, objs, list(objs) + list(extern))
     return root, objs
 
 
@@ -247,14 +264,27 @@ def gen_case(r, thorough=False):
     g = gen_grammar(r.split("g"), big=thorough, imports=multi)
     maxobjs = r.weighted([(4, 2), (8, 4), (14, 3), (22, 1)]) if not thorough else r.weighted([(5, 2), (10, 3), (18, 3), (30, 2)])
     files = {}
-    objs2 = []
+    shape = None
     if multi:
-        root2, objs2 = gen_model(r.split("m2"), g, max(3, maxobjs // 2), start=100)
-        files["other.m"] = model_text(g, root2)
-    root, objs = gen_model(r.split("m"), g, maxobjs, extern=objs2)
-    if multi:
-        root["imports"] = ["other.m"]
-    objs = objs + objs2
+        rs = r.split("shape")
+        shape = rs.weighted([("pair", 3), ("chain", 2), ("star", 1), ("diamond", 2), ("cycle2", 2), ("cycle3", 1), ("chain+back", 1)])
+        k, edges = SHAPES[shape]
+        per = max(3, maxobjs // k)
+        trees = [gen_model(r.split("m%d" % i), g, per, start=100 * i, fill=False) for i in range(k)]
+        fname = lambda i: "m%d.m" % i  # noqa: E731
+        for i in range(k):
+            imported = [j for a, j in edges if a == i]
+            visible = list(trees[i][1])
+            for j in imported:
+                visible += trees[j][1]
+            fill_refs(r.split("refs%d" % i), g, trees[i][1], visible)
+            trees[i][0]["imports"] = [fname(j) for j in imported]
+        root = trees[0][0]
+        objs = [o for t in trees for o in t[1]]
+        for i in range(1, k):
+            files[fname(i)] = model_text(g, trees[i][0])
+    else:
+        root, objs = gen_model(r.split("m"), g, maxobjs)
     text = model_text(g, root)
     refs = expected_refs(objs)
     rr = r.split("p")
@@ -299,7 +329,7 @@ def gen_case(r, thorough=False):
                 bad = None
             text = " ".join(toks)
     postpone = bad is not None and rr.chance(0.5)
-    return {"grammars": {"main.tx": grammar_text(g)}, "main": "main.tx", "model": text, "files": files, "reg": reg, "postpone_bad": postpone,
+    return {"grammars": {"main.tx": grammar_text(g)}, "main": "main.tx", "model": text, "files": files, "shape": shape, "reg": reg, "postpone_bad": postpone,
             "actions": actions, "user": user, "expect_refs": refs, "expect_error": bad is not None,
             "match_rules": ["W"]}
 
@@ -479,6 +509,14 @@ def oracle(case, o, idx_of):
         return bad
     if not o["ok"]:
         return ["load failed: %s: %s" % (o["error_type"], o["error"])]
+    # every model under construction (main + every file of the import graph, however often and
+    # along whichever path it is imported) is processed exactly once
+    want_models = 1 + len(case.get("files") or {})
+    if len(o["models"]) != want_models:
+        bad.append("%d models processed, the import graph has %d" % (len(o["models"]), want_models))
+    roots = [m["tree"]["id"] for m in o["models"] if m["tree"] and "id" in m["tree"]]
+    if len(set(roots)) != len(roots):
+        bad.append("a model was processed twice")
     # phase order
     kinds = [e["k"] for e in o["events"]]
     if "proc" in kinds:
